@@ -23,6 +23,120 @@ func c10NTLMBulk(rep *Report, n int, seed int64) {
 		resp, err = a.Authenticate(&auth.NtlmRequest{Session: sess, NtlmMessage: B64(m)})
 		return
 	}
+	judge := func(m []byte, err error, p any) bool {
+		if p != nil {
+			rep.Violate("C10/ntlm-verifier/unrecovered-panic", fmt.Sprintf("NTLM verifier panicked: %v", p), map[string]any{"message_hex": fmt.Sprintf("%x", m)})
+			return false
+		}
+		if err != nil && strings.Contains(err.Error(), "runtime error") {
+			rep.Violate("C10/ntlm-verifier/recovered-panic", "NTLM verifier hit a runtime panic (recovered): "+err.Error(), map[string]any{"message_hex": fmt.Sprintf("%x", m)})
+			return false
+		}
+		return true
+	}
+	// systematic part: every security-buffer header of a valid negotiate / authenticate message with
+	// boundary lengths and offsets, and every truncation of both messages
+	{
+		sweep := func(base []byte, fields []int, fresh func() []byte) bool {
+			for _, f := range fields {
+				origLen := int(base[f]) | int(base[f+1])<<8
+				origOff := int(base[f+4]) | int(base[f+5])<<8
+				var lens []int
+				for v := 0; v <= 64; v++ {
+					lens = append(lens, v)
+				}
+				lens = append(lens, origLen-1, origLen, origLen+1, len(base)-origOff, len(base)-origOff+1, 0x7FFF, 0xFFFF)
+				offs := []int{origOff, 0, f, len(base) - 1, len(base), len(base) + 1, 0x7FFFFFFF, -1}
+				for _, ln := range lens {
+					if ln < 0 {
+						continue
+					}
+					for oi, of := range offs {
+						if oi > 0 && ln > 2 && ln != origLen {
+							continue // offsets are crossed with a few lengths only
+						}
+						m := append([]byte(nil), fresh()...)
+						m[f], m[f+1] = byte(ln), byte(ln>>8)
+						m[f+2], m[f+3] = byte(ln), byte(ln>>8)
+						u := uint32(of)
+						m[f+4], m[f+5], m[f+6], m[f+7] = byte(u), byte(u>>8), byte(u>>16), byte(u>>24)
+						_, err, p := call("sweep", m)
+						rep.Count("ntlm_sweep_messages", 1)
+						if !judge(m, err, p) {
+							return false
+						}
+					}
+				}
+			}
+			// pairs of headers with a few (length, offset) values each
+			type lo struct{ ln, of int }
+			small := []lo{{0, 0}, {1, 0}, {1, -1}, {4, 0}, {2, len(base)}, {0xFFFF, 1}}
+			set := func(m []byte, f int, v lo) {
+				m[f], m[f+1], m[f+2], m[f+3] = byte(v.ln), byte(v.ln>>8), 0, 0
+				u := uint32(v.of)
+				m[f+4], m[f+5], m[f+6], m[f+7] = byte(u), byte(u>>8), byte(u>>16), byte(u>>24)
+			}
+			for i, f1 := range fields {
+				for _, f2 := range fields[i+1:] {
+					for _, v1 := range small {
+						for _, v2 := range small {
+							m := append([]byte(nil), fresh()...)
+							set(m, f1, v1)
+							set(m, f2, v2)
+							_, err, p := call("sweep", m)
+							rep.Count("ntlm_sweep_messages", 1)
+							if !judge(m, err, p) {
+								return false
+							}
+						}
+					}
+				}
+			}
+			// every byte behind the signature overwritten with 0x00 / 0x01 / 0x7f / 0xff
+			for pos := 8; pos < len(base); pos++ {
+				for _, v := range []byte{0, 1, 0x7f, 0xff} {
+					m := append([]byte(nil), fresh()...)
+					if pos >= len(m) || m[pos] == v {
+						continue
+					}
+					m[pos] = v
+					_, err, p := call("sweep", m)
+					rep.Count("ntlm_sweep_messages", 1)
+					if !judge(m, err, p) {
+						return false
+					}
+				}
+			}
+			b := fresh()
+			for cut := 0; cut <= len(b); cut++ {
+				_, err, p := call("sweep", b[:cut])
+				rep.Count("ntlm_sweep_messages", 1)
+				if !judge(b[:cut], err, p) {
+					return false
+				}
+				if cut%4 == 0 {
+					b = fresh()
+				}
+			}
+			return true
+		}
+		fresh3 := func() []byte {
+			resp, _, _ := call("sweep", t1)
+			ch := &NTLMChallenge{ServerChallenge: []byte{1, 2, 3, 4, 5, 6, 7, 8}, TargetInfo: []byte{0, 0, 0, 0}}
+			if resp != nil && resp.NtlmMessage != "" {
+				if raw, err := decodeStd(resp.NtlmMessage); err == nil {
+					if c, err := ParseNTLMType2(raw); err == nil {
+						ch = c
+					}
+				}
+			}
+			return NTLMType3(Type3Opts{User: "alice", Password: "s3cret", Workstation: "WS", ServerChallenge: ch.ServerChallenge, TargetInfo: ch.TargetInfo, FlipProofBit: -1, FlipBlobBit: -1})
+		}
+		rep.Eval(HashStr("ntlm-sweep"))
+		if !sweep(fresh3(), []int{12, 20, 28, 36, 44, 52}, fresh3) || !sweep(t1, []int{16, 24}, func() []byte { return t1 }) {
+			return
+		}
+	}
 	for i := 0; i < n; i++ {
 		sess := fmt.Sprintf("bulk-%d", i%7)
 		var base []byte
@@ -56,12 +170,7 @@ func c10NTLMBulk(rep *Report, n int, seed int64) {
 		if i%1000 == 0 {
 			rep.Eval(HashStr("ntlm-bulk", i))
 		}
-		if p != nil {
-			rep.Violate("C10/ntlm-verifier/unrecovered-panic", fmt.Sprintf("NTLM verifier panicked: %v", p), map[string]any{"message_hex": fmt.Sprintf("%x", m)})
-			return
-		}
-		if err != nil && strings.Contains(err.Error(), "runtime error") {
-			rep.Violate("C10/ntlm-verifier/recovered-panic", "NTLM verifier hit a runtime panic (recovered): "+err.Error(), map[string]any{"message_hex": fmt.Sprintf("%x", m)})
+		if !judge(m, err, p) {
 			return
 		}
 	}
